@@ -156,9 +156,15 @@ func enumerate(thorough bool) (sp spaces, extra map[string]any) {
 		}
 		return []int{65}
 	}
-	for _, cmd := range commands {
+	for ci, cmd := range commands {
+		// quick: the whole oversize family for two commands, its four key members for the others
+		// (the pipe handling in run()/execCommander does not depend on the command)
+		full := thorough || ci == 0 || ci == 3
 		addBig := func(ex, so, se string, important bool) {
-			for _, mib := range sizes(cmd, important) {
+			if !full && !important {
+				return
+			}
+			for _, mib := range sizes(cmd, important && full) {
 				sp.big = append(sp.big, Case{Cmd: cmd, Exit: ex, Stdout: so, Stderr: se, Timing: tImmediate, Ctx: cBackground, Req: "small", BigMiB: mib})
 			}
 		}
@@ -210,6 +216,13 @@ func enumerate(thorough bool) (sp spaces, extra map[string]any) {
 				t("0", "empty", sh, ctx, "small")
 			}
 			t("0", "empty", tShStdin, ctx, "large")
+			// killed by the context AFTER a complete stderr: crossed with the whole (non-oversized) stderr alphabet
+			for _, se := range ses {
+				if !se.Pad {
+					sp.timing = append(sp.timing, Case{Cmd: cmd, Exit: "0", Stdout: "empty", Stderr: se.Name, Timing: tShErrSleep, Ctx: ctx, Req: "small"})
+					sp.timing = append(sp.timing, Case{Cmd: cmd, Exit: "0", Stdout: "empty", Stderr: se.Name, Timing: tShErrSleepNoTerm, Ctx: ctx, Req: "small"})
+				}
+			}
 			if thorough {
 				t("1", "non-json", tDescExit, ctx, "small")
 				t("killed", "empty", tDescExit, ctx, "small")
@@ -238,6 +251,9 @@ type driver struct {
 	root string
 	seq  atomic.Int64
 
+	retries atomic.Int64
+	skipped atomic.Int64
+
 	mu           sync.Mutex
 	controls     map[string][2]int // per command: ok, failed
 	controlFails []Case
@@ -254,7 +270,22 @@ func (d *driver) run(c Case) result {
 		d.r.Eval(1) // warm-up call
 		return runInWorker(d.root, d.nextID("w"), c)
 	}
-	return runCase(d.root, d.nextID("c"), c)
+	res := runCase(d.root, d.nextID("c"), c)
+	// "complete stderr, then killed by the context": when the machine is so loaded that the context ended before the
+	// plugin had finished printing, the case was not realised; it is run again with the context's delay doubled
+	// (a real context.WithTimeout / cancel every time; the 20 s bound is applied to every attempt)
+	if isErrThenSleep(c.Timing) && isCtxLimited(c.Ctx) {
+		kind, delay := ctxSpec(c.Ctx)
+		for attempt := 1; attempt <= 6 && res.Setup == "" && res.Returned && !res.Printed; attempt++ {
+			delay *= 2
+			c2 := c
+			c2.Ctx = fmt.Sprintf("%s-%dms", kind, delay.Milliseconds())
+			d.r.Eval(1)
+			d.retries.Add(1)
+			res = runCase(d.root, d.nextID("c"), c2)
+		}
+	}
+	return res
 }
 
 func (d *driver) record(c Case, res result, replaying bool) {
@@ -340,7 +371,7 @@ func main() {
 		return
 	}
 	r := hx.New("C17")
-	r.Rule = "E3: every behaviour tuple (command, exit, stdout kind, stderr kind, timing, context, request size) of the stated alphabet is run once as a real process through the real CLIPlugin: full product command x exit x stdout x stderr for the cheap kinds; oversized streams (65 MiB, 512 MiB) and timing/context behaviours crossed with one representative of the other dimensions. Non-trivial = distinct tuples on which at least one judged clause applied (success forbidden / control / error type / cap / bounded delay)."
+	r.Rule = "E3: every behaviour tuple (command, exit, stdout kind, stderr kind, timing, context, request size) of the stated alphabet is run once as a real process through the real CLIPlugin: full product command x exit x stdout x stderr for the cheap kinds; oversized streams (65 MiB, 512 MiB) and timing/context behaviours crossed with one representative of the other dimensions, except 'complete stderr, then sleeps past the end of the context' (and its SIGTERM-ignoring twin), which is crossed with the whole stderr alphabet for every command and every ending context. Non-trivial = distinct tuples on which at least one judged clause applied (success forbidden / control / error type / cap / bounded delay)."
 	r.Assumptions = []string{
 		"stdout/stderr kinds are hand-labelled (honest, invalid-metadata:<clause>, undecodable, oversize, unjudged; structured:<code>, unstructured, huge); the oracle never parses a reply",
 		"null, {} and replies with extra members are recorded but not judged on the non-metadata commands; an honest reply with noise on stderr and exit 0 may be refused (implication)",
@@ -410,24 +441,48 @@ func main() {
 	// let the contexts of the timing cases end before the CPU-heavy product starts (not an oracle)
 	time.Sleep(1500 * time.Millisecond)
 
+	// internal deadline: on an overloaded machine the run stops enumerating and reports exhaustive:false
+	if r.Thorough() {
+		r.SetDeadline(9 * time.Minute)
+	} else {
+		r.SetDeadline(42 * time.Second)
+	}
 	t0 := time.Now()
+	var bwg sync.WaitGroup
+	var bigSecs float64
+	bwg.Add(1)
+	go func() { // oversized streams: limited parallelism, alongside the cheap product
+		defer bwg.Done()
+		limitedParallel(8, sp.big, func(c Case) {
+			defer onPanic(c)()
+			if r.Expired() {
+				d.skipped.Add(1)
+				return
+			}
+			d.record(c, d.run(c), false)
+		})
+		bigSecs = time.Since(t0).Seconds()
+	}()
 	r.Parallel(len(sp.cheap), func(i int) {
+		if r.Expired() {
+			d.skipped.Add(1)
+			return
+		}
 		c := sp.cheap[i]
 		d.record(c, d.run(c), false)
 	}, func(i int, v any, stack string) {
 		r.Infra("panic in the code under test on %s: %v\n%s", sp.cheap[i].key(), v, stack)
 	})
-
 	r.Extra["phase_cheap_product_s(informational)"] = time.Since(t0).Seconds()
-	t0 = time.Now()
-	limitedParallel(8, sp.big, func(c Case) {
-		defer onPanic(c)()
-		d.record(c, d.run(c), false)
-	})
-	r.Extra["phase_oversize_s(informational)"] = time.Since(t0).Seconds()
+	bwg.Wait()
+	r.Extra["phase_oversize_s(informational)"] = bigSecs
 	t0 = time.Now()
 	twg.Wait()
 	r.Extra["phase_wait_for_timing_cases_s(informational)"] = time.Since(t0).Seconds()
+	if n := d.skipped.Load(); n > 0 {
+		r.Capped(fmt.Sprintf("internal deadline reached on a loaded machine: all %d timing/context cases and %d of the %d cheap/oversize cases were run, %d skipped", len(sp.timing), len(sp.cheap)+len(sp.big)-int(n), len(sp.cheap)+len(sp.big), n))
+	}
+	r.Extra["context_kill_cases_rerun_with_doubled_delay(informational)"] = d.retries.Load()
 
 	// positive controls
 	var cmds []string
